@@ -49,7 +49,7 @@ type RaftGroup struct {
 	log           *log.Entry
 }
 
-func startRaftNode(id uint64, nodeIds []uint64, storage wal.WAL, logger *log.Entry) (etcdRaft.Node, error) {
+func startRaftNode(id uint64, address string, nodeIds []uint64, storage wal.WAL, logger *log.Entry) (etcdRaft.Node, error) {
 	raftConfig := &etcdRaft.Config{
 		ID:              id,
 		ElectionTick:    10,
@@ -69,7 +69,12 @@ func startRaftNode(id uint64, nodeIds []uint64, storage wal.WAL, logger *log.Ent
 	if len(nodeIds) > 0 && empty {
 		var peers []etcdRaft.Peer
 		for _, nodeId := range nodeIds {
-			peers = append(peers, etcdRaft.Peer{ID: nodeId})
+			peer := etcdRaft.Peer{ID: nodeId}
+			if nodeId == id && len(address) > 0 {
+				// The bootstrap entry is the only record of this node's address in the log
+				peer.Context = []byte(address)
+			}
+			peers = append(peers, peer)
 		}
 		return etcdRaft.StartNode(raftConfig, peers), nil
 	} else {
@@ -101,7 +106,12 @@ func NewRaftGroup(id uuid.UUID, nodeIds []uint64, storage wal.WAL, transport *Ra
 	})
 
 	ctx, ctxCancel := context.WithCancel(context.Background())
-	raftNode, err := startRaftNode(transport.NodeId(), nodeIds, storage, logger)
+	// Only the zero group feeds the address book (see processConfChange)
+	address := ""
+	if uuid.Equal(id, uuid.Nil) {
+		address = transport.Address()
+	}
+	raftNode, err := startRaftNode(transport.NodeId(), address, nodeIds, storage, logger)
 	if err != nil {
 		return nil, err
 	}
@@ -286,7 +296,9 @@ func (this *RaftGroup) processConfChange(entry raftpb.Entry) error {
 		// This prevents partition node changes from adding/removing nodes
 		switch cc.Type {
 		case raftpb.ConfChangeAddNode:
-			this.transport.addNodeAddress(cc.NodeID, string(cc.Context))
+			if len(cc.Context) > 0 {
+				this.transport.addNodeAddress(cc.NodeID, string(cc.Context))
+			}
 		case raftpb.ConfChangeRemoveNode:
 			this.transport.removeNodeAddress(cc.NodeID)
 		}
